@@ -62,7 +62,9 @@ func Walk(v Visitor, node ast.Node) {
 		}
 
 	case *ast.Break:
-		Walk(v, n.Label)
+		if n.Label != nil {
+			Walk(v, n.Label)
+		}
 
 	case *ast.Call:
 		for _, arg := range n.Args {
@@ -99,7 +101,9 @@ func Walk(v Visitor, node ast.Node) {
 		}
 
 	case *ast.Continue:
-		Walk(v, n.Label)
+		if n.Label != nil {
+			Walk(v, n.Label)
+		}
 
 	case *ast.Defer:
 		Walk(v, n.Call)
@@ -147,15 +151,23 @@ func Walk(v Visitor, node ast.Node) {
 		}
 
 	case *ast.Func:
-		for _, child := range n.Body.Nodes {
-			Walk(v, child)
+		if n.Body != nil {
+			for _, child := range n.Body.Nodes {
+				Walk(v, child)
+			}
 		}
 
 	case *ast.FuncType:
 		for _, param := range n.Parameters {
+			if param.Ident != nil {
+				Walk(v, param.Ident)
+			}
 			Walk(v, param.Type)
 		}
 		for _, res := range n.Result {
+			if res.Ident != nil {
+				Walk(v, res.Ident)
+			}
 			Walk(v, res.Type)
 		}
 
@@ -163,7 +175,9 @@ func Walk(v Visitor, node ast.Node) {
 		Walk(v, n.Call)
 
 	case *ast.Goto:
-		Walk(v, n.Label)
+		if n.Label != nil {
+			Walk(v, n.Label)
+		}
 
 	case *ast.If:
 		if n.Init != nil {
@@ -200,6 +214,9 @@ func Walk(v Visitor, node ast.Node) {
 		}
 
 	case *ast.Select:
+		if n.LeadingText != nil {
+			Walk(v, n.LeadingText)
+		}
 		for _, c := range n.Cases {
 			Walk(v, c)
 		}
@@ -242,9 +259,20 @@ func Walk(v Visitor, node ast.Node) {
 			Walk(v, child)
 		}
 
+	case *ast.StructType:
+		for _, field := range n.Fields {
+			for _, ident := range field.Idents {
+				Walk(v, ident)
+			}
+			Walk(v, field.Type)
+		}
+
 	case *ast.Switch:
 		Walk(v, n.Init)
 		Walk(v, n.Expr)
+		if n.LeadingText != nil {
+			Walk(v, n.LeadingText)
+		}
 		for _, c := range n.Cases {
 			Walk(v, c)
 		}
@@ -256,10 +284,22 @@ func Walk(v Visitor, node ast.Node) {
 
 	case *ast.TypeAssertion:
 		Walk(v, n.Expr)
+		Walk(v, n.Type)
+
+	case *ast.TypeDeclaration:
+		if n.Ident != nil {
+			Walk(v, n.Ident)
+		}
+		Walk(v, n.Type)
 
 	case *ast.TypeSwitch:
 		Walk(v, n.Init)
-		Walk(v, n.Assignment)
+		if n.Assignment != nil {
+			Walk(v, n.Assignment)
+		}
+		if n.LeadingText != nil {
+			Walk(v, n.LeadingText)
+		}
 		for _, c := range n.Cases {
 			Walk(v, c)
 		}
@@ -275,7 +315,9 @@ func Walk(v Visitor, node ast.Node) {
 	case *ast.Using:
 		Walk(v, n.Statement)
 		Walk(v, n.Type)
-		Walk(v, n.Body)
+		if n.Body != nil {
+			Walk(v, n.Body)
+		}
 
 	case *ast.Var:
 		for _, ident := range n.Lhs {
@@ -286,8 +328,22 @@ func Walk(v Visitor, node ast.Node) {
 			Walk(v, value)
 		}
 
-	case *ast.Extends:
 	case *ast.Import:
+		// Visiting the expanded tree is done by the Visit function if
+		// necessary.
+		if n.Ident != nil {
+			Walk(v, n.Ident)
+		}
+		for _, ident := range n.For {
+			Walk(v, ident)
+		}
+
+	case *ast.Raw:
+		if n.Text != nil {
+			Walk(v, n.Text)
+		}
+
+	case *ast.Extends:
 	case *ast.Render:
 	// Nothing to do, visiting the expanded tree is done
 	// by the Visit function if necessary.
@@ -296,7 +352,6 @@ func Walk(v Visitor, node ast.Node) {
 		*ast.Identifier,
 		*ast.Comment,
 		*ast.Text,
-		*ast.Raw,
 		*ast.Placeholder,
 		*ast.Interface,
 		*ast.Fallthrough:
